@@ -565,17 +565,20 @@ package priority
 //@   ensures [C15] creation-fault-is-reported: gDivErr ==> result1 == ErrDividerBad
 
 // ---------------------------------------------------------------- API methods (run by other goroutines)
+//@ ghost var gRelP int
 //@ event send dsc.feedback (p)
+//@   effect gRelP := p
 
 //@ func (*Discipline).Output
 //@   requires [*] dsc != nil
-//@   ensures [*] result == dsc.output
+//@   ensures [* C02] the-channel-the-discipline-delivers-on: result == dsc.output
 //@ func (*Discipline).Err
 //@   requires [*] dsc != nil
-//@   ensures [*] result == dsc.err
+//@   ensures [* C07 C15] the-channel-the-discipline-reports-on: result == dsc.err
 //@ func (*Discipline).Release
 //@   requires [*] dsc != nil
-//@   modifies gClock
+//@   modifies gClock, gRelP
+//@   ensures [C01 C07] the-released-priority-is-the-argument: gRelP == priority
 
 // ---------------------------------------------------------------- C20: ownership discipline
 //@ confine Discipline
